@@ -48,6 +48,22 @@ def pyIndex {τ : Type} (l : List τ) (i : Int) : Except String τ :=
     | some v => pure v
     | none => throw "IndexError"
 
+/-- a numpy int vector of length 2 (`numpy.zeros(2)`, `numpy.array([a, b])`).  The translator gives it VALUE semantics and therefore
+    refuses every in-place update of a variable of this type (`v += w` mutates the array object all its aliases share). -/
+abbrev NpVec2 := Int × Int
+def npAdd2 (a b : NpVec2) : NpVec2 := (a.1 + b.1, a.2 + b.2)
+
+/-- a Python dict `{int: NpVec2}` as an association list, most recent binding first -/
+abbrev PyDict2 := List (Int × NpVec2)
+def dictSet (d : PyDict2) (k : Int) (v : NpVec2) : PyDict2 := (k, v) :: d
+/-- `d[k]`: `KeyError` when absent -/
+def dictGet : PyDict2 → Int → Except String NpVec2
+  | [], _ => throw "KeyError"
+  | (k', v) :: rest, k => if k' = k then pure v else dictGet rest k
+def dictGetD : PyDict2 → Int → NpVec2
+  | [], _ => (0, 0)
+  | (k', v) :: rest, k => if k' = k then v else dictGetD rest k
+
 /-- `int(round(a / b))`: nearest integer of the exact quotient, ties to the even neighbour -/
 def roundDiv (a b : Int) : Except String Int :=
   if b == 0 then throw "ZeroDivisionError" else
